@@ -132,6 +132,26 @@ def gen_script(rng, tier):
     return {"steps": steps, "kinds": kinds, "pk": pk, "pk_first": not key_second, "extra": extra}
 
 
+def chunk_boundary_scripts():
+    """grouping on the key of a keyed table (a sort aggregation on disk, a hash aggregation in memory) whose number of groups is a
+    whole number of 1024-row output chunks"""
+    out = []
+    for n in (1024, 2048):
+        steps = [{"sql": "create table t(a int primary key, b int)"}, {"sql": "create table u(k int, v int)"}]
+        kinds = ["ddl", "ddl"]
+        for lo in range(0, n, 512):
+            steps.append({"sql": "insert into t values " + ", ".join(f"({i}, {i % 7})" for i in range(lo, lo + 512))})
+            kinds.append("dml")
+        for q in ("select a, count(*) from t group by a", "select a, sum(b), min(b) from t group by a", "select count(*) from (select a from t group by a) g",
+                  "select * from t"):
+            steps.append({"sql": q})
+            kinds.append("query")
+        steps.append({"sql": "select a, b from t order by a"})
+        kinds.append("query-ordered")
+        out.append({"steps": steps, "kinds": kinds, "pk": True, "pk_first": True, "extra": None})
+    return out
+
+
 DISK_CONFIGS = [
     {"block": 64, "rowset": 800},
     {"block": 128, "rowset": 5000, "crc": False},
@@ -173,7 +193,7 @@ def run(R, only=None):
     R.prove()
     build_harness()
     n = 120 if R.tier == "quick" else 1500
-    scripts = only or [gen_script(R.rng, R.tier) for _ in range(n)]
+    scripts = only or ([gen_script(R.rng, R.tier) for _ in range(n)] + chunk_boundary_scripts())
     jobs, index = [], []
     for si, s in enumerate(scripts):
         cfgs = [R.rng.choice(DISK_CONFIGS[:2]), R.rng.choice(DISK_CONFIGS[2:])] if not only else DISK_CONFIGS
